@@ -252,7 +252,7 @@ func (zsl *ZSkipList) DeleteRangeByScore(min, max int64, dict map[collections.Co
 	var removed int
 	var x = zsl.head
 	for i := zsl.level - 1; i >= 0; i-- {
-		for x.level[i].forward != nil && x.level[i].forward.Score <= min {
+		for x.level[i].forward != nil && x.level[i].forward.Score < min {
 			x = x.level[i].forward
 		}
 		update[i] = x
